@@ -23,3 +23,31 @@ fn ghost_powf32(x: f32, y: f32) -> f32 {
     }
     r
 }
+// ---- exp ghost with a 9-entry table (a 3 x 3 Gaussian kernel matrix makes 9 calls; common/ghost_f32.rs holds 4) ----
+// same axioms as common/ghost_f32.rs::ghost_exp32: no NaN from non-NaN, >= 0, <= 1 on x <= 0, >= 1 on x >= 0,
+// exp(+-0) = 1, monotone (non-strict) and functional w.r.t. every recorded call.
+#[allow(dead_code)] const GX_CAP: usize = 9;
+#[allow(dead_code)] static mut GX_A: [f32; GX_CAP] = [0.0; GX_CAP];
+#[allow(dead_code)] static mut GX_R: [f32; GX_CAP] = [0.0; GX_CAP];
+#[allow(dead_code)] static mut GX_N: usize = 0;
+#[allow(dead_code)]
+fn ghost_exp32_big(x: f32) -> f32 {
+    let r: f32 = kani::any();
+    if x.is_nan() { kani::assume(r.is_nan()); return r; }
+    kani::assume(!r.is_nan() && r >= 0.0);
+    if x <= 0.0 { kani::assume(r <= 1.0); }
+    if x >= 0.0 { kani::assume(r >= 1.0); }
+    if x == 0.0 { kani::assume(r == 1.0); }
+    if x == f32::NEG_INFINITY { kani::assume(r == 0.0); }
+    if x == f32::INFINITY { kani::assume(r == f32::INFINITY); }
+    unsafe {
+        let mut i = 0;
+        while i < GX_N {
+            if x <= GX_A[i] { kani::assume(r <= GX_R[i]); }
+            if x >= GX_A[i] { kani::assume(r >= GX_R[i]); }
+            i += 1;
+        }
+        if GX_N < GX_CAP { GX_A[GX_N] = x; GX_R[GX_N] = r; GX_N += 1; }
+    }
+    r
+}
